@@ -1,6 +1,7 @@
 import CryoCat.Lemmas.C14
 import CryoCat.Lemmas.C14_Sym
 import CryoCat.Lemmas.C14_Cube
+import CryoCat.Lemmas.C14_Total
 import Mathlib.Algebra.Field.Rat
 import Mathlib.Tactic.NormNum
 /-! C14 — property theorems (only theorems and non-vacuity examples). -/
@@ -82,6 +83,179 @@ theorem motl_source_documented :
     Gen.C14.motlShiftPositions = ["np.array([[row['phi'],row['theta'],row['psi']]])",
        "rot.from_euler(seq='zxz',angles=euler_angles,degrees=True)", "orientations.apply(v)"] := by repeat' constructor
 
+/-- **signature defaults the statement depends on** (every parameter, in order, with its default): `rotate` — `coord_space='zxz'`,
+`transpose_rotation=False`, `degrees=True`, `spline_order=3`; `extract_subvolume` — `enforce_shape=False`; `crop` — `crop_coord=None`
+(→ box centre); `pad` — `fill_value=None` (→ volume mean); `place_object` — `feature_to_color='object_id'` -/
+theorem signatures_documented :
+    Gen.C14.rotateSig =
+      ["input_map",
+       "rotation=None",
+       "rotation_angles=None",
+       "coord_space='zxz'",
+       "transpose_rotation=False",
+       "degrees=True",
+       "spline_order=3",
+       "output_name=None"] ∧
+    Gen.C14.windowSig =
+      ["coord",
+       "volume_shape",
+       "subvolume_shape"] ∧
+    Gen.C14.extractSig =
+      ["volume",
+       "coordinates",
+       "subvolume_shape",
+       "enforce_shape=False",
+       "output_file=None"] ∧
+    Gen.C14.cropSig =
+      ["input_map",
+       "new_size",
+       "output_file=None",
+       "crop_coord=None"] ∧
+    Gen.C14.padSig =
+      ["input_volume",
+       "new_size",
+       "fill_value=None"] ∧
+    Gen.C14.placeSig =
+      ["input_object",
+       "motl",
+       "volume_shape=None",
+       "volume=None",
+       "feature_to_color='object_id'"] ∧
+    Gen.C14.symSig =
+      ["vol",
+       "symmetry"] := by repeat' constructor
+
+/-- `rotate`, every statement (nested blocks by `>`) -/
+theorem rotate_body_documented :
+    Gen.C14.rotateBody =
+      ["input_map=read(input_map)",
+       "T=np.eye(4)",
+       "structure_center=np.asarray(input_map.shape)//2",
+       "T[:3,-1]=structure_center",
+       "rot_matrix=np.eye(4)",
+       "if rotationisnotNone:",
+       ">if transpose_rotation:",
+       ">>rot_matrix[0:3,0:3]=rotation.as_matrix().T",
+       ">else:",
+       ">>rot_matrix[0:3,0:3]=rotation.as_matrix()",
+       "else:",
+       ">if rotation_anglesisnotNone:",
+       ">>rot=srot.from_euler(coord_space,rotation_angles,degrees=degrees)",
+       ">>rot_matrix[0:3,0:3]=rot.as_matrix().T",
+       ">else:",
+       ">>Raise:ValueError",
+       "final_matrix=T@rot_matrix@np.linalg.inv(T)",
+       "rot_struct=np.empty(input_map.shape)",
+       "Expr:affine_transform(input=input_map,output=rot_struct,matrix=final_matrix,order=spline_order)",
+       "if output_nameisnotNone:",
+       ">Expr:write(rot_struct,output_name,data_type=np.single)",
+       "return rot_struct"] := by repeat' constructor
+
+/-- `get_start_end_indices`, every statement (no branch, no in-place update) -/
+theorem window_body_documented :
+    Gen.C14.windowBody =
+      ["subvolume_shape=np.asarray(subvolume_shape)",
+       "subvolume_half=subvolume_shape/2",
+       "volume_start=np.floor(coord-subvolume_half).astype(int)",
+       "volume_end=(volume_start+subvolume_shape).astype(int)",
+       "volume_start_clip=np.minimum(np.maximum([0,0,0],volume_start),np.asarray(volume_shape))",
+       "volume_end_clip=np.maximum(np.minimum(np.asarray(volume_shape),volume_end),[0,0,0])",
+       "subvolume_start=volume_start_clip-volume_start",
+       "subvolume_end=volume_end-volume_start",
+       "subvolume_end=volume_end_clip-volume_end+subvolume_end",
+       "subvolume_start=np.minimum(np.maximum([0,0,0],subvolume_start),subvolume_shape)",
+       "subvolume_end=np.maximum(np.minimum(subvolume_shape,subvolume_end),[0,0,0])",
+       "return (volume_start_clip,volume_end_clip,subvolume_start,subvolume_end)"] := by repeat' constructor
+
+/-- `extract_subvolume`, both branches (`enforce_shape` and default) -/
+theorem extract_body_documented :
+    Gen.C14.extractBody =
+      ["(vs,ve,ss,se)=get_start_end_indices(coordinates,volume.shape,subvolume_shape)",
+       "if enforce_shapeisnotFalse:",
+       ">subvolume=np.full(volume.shape,np.mean(volume))",
+       ">subvolume[vs[0]:ve[0],vs[1]:ve[1],vs[2]:ve[2]]=volume[vs[0]:ve[0],vs[1]:ve[1],vs[2]:ve[2]]",
+       "else:",
+       ">subvolume=np.full(subvolume_shape,np.mean(volume))",
+       ">subvolume[ss[0]:se[0],ss[1]:se[1],ss[2]:se[2]]=volume[vs[0]:ve[0],vs[1]:ve[1],vs[2]:ve[2]]",
+       "if output_fileisnotNone:",
+       ">Expr:write(subvolume,output_file,data_type=np.single)",
+       "return subvolume"] := by repeat' constructor
+
+/-- `crop`, incl. the default-centre branch -/
+theorem crop_body_documented :
+    Gen.C14.cropBody =
+      ["input_map=read(input_map)",
+       "new_size=cryomask.get_correct_format(new_size)",
+       "if crop_coordisNone:",
+       ">crop_coord=cryomask.get_correct_format(input_map.shape)//2",
+       "else:",
+       ">crop_coord=cryomask.get_correct_format(crop_coord)",
+       "(vs,ve,_,_)=get_start_end_indices(crop_coord,input_map.shape,new_size)",
+       "cropped_volume=input_map[vs[0]:ve[0],vs[1]:ve[1],vs[2]:ve[2]]",
+       "if output_fileisnotNone:",
+       ">Expr:write(cropped_volume,output_file,data_type=np.single)",
+       "return cropped_volume"] := by repeat' constructor
+
+/-- `pad`, the whole body (mirrored by `padStart`/`padF`) -/
+theorem pad_body_documented :
+    Gen.C14.padBody =
+      ["volume=read(input_volume)",
+       "if fill_valueisNone:",
+       ">padded_volume=np.full(new_size,np.mean(volume))",
+       "else:",
+       ">padded_volume=np.full(new_size,fill_value)",
+       "vol_size=volume.shape",
+       "x_start=int(np.ceil((new_size[0]-vol_size[0])/2))",
+       "y_start=int(np.ceil((new_size[1]-vol_size[1])/2))",
+       "z_start=int(np.ceil((new_size[2]-vol_size[2])/2))",
+       "x_end=int(x_start+vol_size[0])",
+       "y_end=int(y_start+vol_size[1])",
+       "z_end=int(z_start+vol_size[2])",
+       "padded_volume[x_start:x_end,y_start:y_end,z_start:z_end]=volume",
+       "return padded_volume"] := by repeat' constructor
+
+/-- `place_object`, the whole body: nothing between rotation, thresholding, window and stamp -/
+theorem place_body_documented :
+    Gen.C14.placeBody =
+      ["if notisinstance(input_object,list):",
+       ">input_object=read(input_object)",
+       "if volumeisnotNone:",
+       ">object_container=read(volume)",
+       "else:",
+       ">if volume_shapeisnotNone:",
+       ">>object_container=np.zeros(volume_shape)",
+       "rotations=motl.get_rotations()",
+       "coordinates=motl.get_coordinates()-1.0",
+       "colors=motl.df[feature_to_color].to_numpy()",
+       "for (i,coord) in enumerate(coordinates):",
+       ">if isinstance(input_object,list):",
+       ">>object_map=rotate(input_object[i],rotation=rotations[i],transpose_rotation=True)",
+       ">else:",
+       ">>object_map=rotate(input_object,rotation=rotations[i],transpose_rotation=True)",
+       ">object_map=np.where(object_map>0.1,1.0,0.0)",
+       ">(ls,le,os,oe)=get_start_end_indices(coord,object_container.shape,object_map.shape)",
+       ">object_shape=object_map[os[0]:oe[0],os[1]:oe[1],os[2]:oe[2]]",
+       ">object_container[ls[0]:le[0],ls[1]:le[1],ls[2]:le[2]]=np.where(object_shape==1.0,colors[i],object_container[ls[0]:le[0],ls[1]:le[1],ls[2]:le[2]])",
+       "return object_container"] := by repeat' constructor
+
+/-- `symmetrize_volume`, the whole body -/
+theorem sym_body_documented :
+    Gen.C14.symBody =
+      ["if isinstance(symmetry,str):",
+       ">nfold=int(re.findall('\\\\d+',symmetry)[-1])",
+       "else:",
+       ">if isinstance(symmetry,(int,float)):",
+       ">>nfold=symmetry",
+       ">else:",
+       ">>Raise:ValueError",
+       "inplane_step=360/nfold",
+       "rotated_sum=np.zeros(vol.shape)",
+       "for inplane in range(1,nfold+1):",
+       ">rotated_volume=rotate(vol,rotation_angles=[0,0,inplane*inplane_step%360])",
+       ">rotated_sum=np.add(rotated_sum,rotated_volume)",
+       "sym_vol=np.divide(rotated_sum,nfold)",
+       "return sym_vol"] := by repeat' constructor
+
 /-! ### rotation: one active convention -/
 
 /-- **Continuous coordinate law, any commutative ring (no trigonometry).** With the matrix `Rᵀ` that `rotate`
@@ -118,6 +292,15 @@ theorem rotate_outside [OfNat α 0] (R : M3 Int) (s : Shape) (f : V3 Int → α)
   unfold rotateBy rotateF
   simp only [h]; rfl
 
+/-- `rotate(map, rotation=R)` with the default `transpose_rotation=False` rotates by the INVERSE orientation:
+it is `rotateBy Rᵀ`, so density at `c + v` moves to `c + Rᵀ v` (the documented meaning of the flag `place_object` sets) -/
+theorem rotate_plain_is_inverse [OfNat α 0] (R : M3 Int) (hT : R.transpose.Orth) (s : Shape) (f : V3 Int → α) (v : V3 Int)
+    (h : s.inBox (s.centre + v) = true) :
+    rotatePlain R s f = rotateBy R.transpose s f ∧ rotatePlain R s f (s.centre + R.transpose.apply v) = f (s.centre + v) := by
+  have e : rotatePlain R s f = rotateBy R.transpose s f := by
+    unfold rotatePlain rotateBy; rw [M3.transpose_transpose]
+  exact ⟨e, by rw [e]; exact rotate_index R.transpose hT s f v h⟩
+
 /-- **Right-angle rotations permute voxels / rotating by the inverse restores.** `Rᵀ` is the inverse
 orientation; wherever voxel `u` and its image `c + R (u - c)` are both in the box, rotating by `R` and then by
 `R⁻¹` gives back the original voxel. -/
@@ -134,6 +317,8 @@ theorem cube24_nodup : cube24.Nodup := by decide
 /-- each is a proper rotation: `RᵀR = 1`, `det R = 1` -/
 theorem cube24_orth : ∀ R ∈ cube24, R.Orth := by unfold M3.Orth; decide
 theorem cube24_det : ∀ R ∈ cube24, R.det = 1 := by decide
+/-- … and so is the inverse of each (`R Rᵀ = 1`), the hypothesis of `rotate_plain_is_inverse` -/
+theorem cube24_transpose_orth : ∀ R ∈ cube24, R.transpose.Orth := by unfold M3.Orth; decide
 /-- they are exactly the particle orientations `zxz(phi, theta, psi)` with right-angle Euler angles -/
 theorem cubeZxz_mem : ∀ a < 4, ∀ b < 4, ∀ c < 4, cubeZxz a b c ∈ cube24 := by decide
 theorem cube24_from_zxz : ∀ R ∈ cube24, ∃ a < 4, ∃ b < 4, ∃ c < 4, R = cubeZxz a b c := by decide
@@ -200,6 +385,59 @@ theorem crop_spec (V s : Shape) (f : V3 Int → α) (start : V3 Int)
   refine ⟨?_, fun t => rfl⟩
   cases s; simp
 
+/-- **`crop`, any window (inside, partly outside, fully outside): the window clipped to the volume.** The result has the
+clipped extents; every voxel of it is the volume voxel `vs + t`, which lies in the volume and in the requested window;
+and every volume voxel inside the requested window appears in the result (at `p - vs`). -/
+theorem crop_spec_clipped (V s : Shape) (f : V3 Int → α) (start : V3 Int) :
+    let c := clip3 start V s
+    let vs : V3 Int := ⟨c.x.vs, c.y.vs, c.z.vs⟩
+    (∀ t, (cropF V f start s).1.inBox t = true →
+        (cropF V f start s).2 t = f (vs + t) ∧ V.inBox (vs + t) = true ∧ s.inBox (vs + t - start) = true) ∧
+    (∀ p, V.inBox p = true → s.inBox (p - start) = true → (cropF V f start s).1.inBox (p - vs) = true) := by
+  refine ⟨fun t ht => ⟨rfl, ?_⟩, fun p hp hw => ?_⟩
+  · simp only [cropF, clip3, inBox_iff, v3_add_x, v3_add_y, v3_add_z, v3_sub_x, v3_sub_y, v3_sub_z] at ht ⊢
+    simp only [clip1] at ht ⊢
+    omega
+  · simp only [cropF, clip3, inBox_iff, v3_sub_x, v3_sub_y, v3_sub_z] at hp hw ⊢
+    simp only [clip1] at hp hw ⊢
+    omega
+
+/-- `crop(map, new_size)` with `crop_coord` omitted is the window centred on the box centre `shape // 2` -/
+theorem crop_default_is_centre (V s : Shape) (f : V3 Int → α) :
+    cropDefault V f s = cropF V f ⟨startOf (V.nx / 2 : Nat) 1 s.nx, startOf (V.ny / 2 : Nat) 1 s.ny, startOf (V.nz / 2 : Nat) 1 s.nz⟩ s := rfl
+
+/-- `extract_subvolume(…, enforce_shape=True)`: the volume's own shape; a voxel keeps its value iff it lies in the
+requested window, every other voxel is the fill value (the volume mean) -/
+theorem extract_enforce_spec (V s : Shape) (f : V3 Int → α) (start : V3 Int) (fill : α) (p : V3 Int) (hp : V.inBox p = true) :
+    extractEnforceF V f start s fill p = if s.inBox (p - start) = true then f p else fill := by
+  unfold extractEnforceF
+  by_cases h : s.inBox (p - start) = true
+  · simp only [(clip3_inVol_iff start V s p hp).2 h, h, if_true]
+  · have h' : (clip3 start V s).inVol p = false := by
+      cases e : (clip3 start V s).inVol p with
+      | false => rfl
+      | true => exact absurd ((clip3_inVol_iff start V s p hp).1 e) h
+    simp [h', h]
+
+/-- `pad`: the volume sits at `start = ⌈(new - old)/2⌉` on every axis (so the padding before exceeds the padding
+after by at most one voxel), every other voxel is the fill value; never raises when the new size is not smaller -/
+theorem pad_spec (N V : Shape) (f : V3 Int → α) (fill : α) (h : V.nx ≤ N.nx ∧ V.ny ≤ N.ny ∧ V.nz ≤ N.nz) :
+    ∃ g, padF N V f fill = some g ∧
+      (∀ t, V.inBox t = true → N.inBox (⟨padStart N.nx V.nx, padStart N.ny V.ny, padStart N.nz V.nz⟩ + t) = true ∧
+        g (⟨padStart N.nx V.nx, padStart N.ny V.ny, padStart N.nz V.nz⟩ + t) = f t) ∧
+      (∀ p, V.inBox (p - ⟨padStart N.nx V.nx, padStart N.ny V.ny, padStart N.nz V.nz⟩) = false → g p = fill) ∧
+      (∀ new old : Nat, old ≤ new → 0 ≤ padStart new old ∧
+        ((new : Int) - old - padStart new old ≤ padStart new old) ∧ (padStart new old ≤ (new : Int) - old - padStart new old + 1)) := by
+  refine ⟨_, by unfold padF; rw [if_pos h], fun t ht => ⟨?_, ?_⟩, fun p hp => ?_, fun new old hle => ?_⟩
+  · obtain ⟨hx, hy, hz⟩ := h
+    simp only [inBox_iff, v3_add_x, v3_add_y, v3_add_z, padStart] at ht ⊢
+    omega
+  · have e : (⟨padStart N.nx V.nx, padStart N.ny V.ny, padStart N.nz V.nz⟩ + t : V3 Int) - ⟨padStart N.nx V.nx, padStart N.ny V.ny, padStart N.nz V.nz⟩ = t :=
+      v3_add_sub_cancel _ t
+    simp only [e, ht, if_true]
+  · simp only [hp]; rfl
+  · unfold padStart; omega
+
 /-! ### placement -/
 
 /-- **One stamp.** Inside the container, a voxel takes the colour iff its template voxel `p - start` exists and is
@@ -232,11 +470,48 @@ theorem placeStart_even (num : V3 Int) (den : Nat) (hd : 0 < den) (a b c : Nat) 
   unfold placeStart startOf3
   simp only [place_offset_documented, startOf_even _ _ _ hd, key]
 
-/-- **Placement uses the particle's active orientation.** A particle with orientation `R` (orthogonal integer
-matrix, e.g. any cube rotation `zxz(phi,theta,psi)`), complete position `pos = num/den` and field value `col`;
-an even template whose voxel at offset `v` from its centre is above the threshold: the container voxel at
-offset `R v` from `⌊pos⌋ - 1` receives `col` — the same `pos + R v` by which `shift_positions` carries a
-reference offset into the tomogram. -/
+/-- the stamp start for ANY template size (odd, even, mixed): `start = ⌊(pos - 1) - s/2⌋` exactly, per axis, for
+`pos = num/den` — `2·den·start ≤ 2·(num - den) - s·den < 2·den·(start + 1)` -/
+theorem placeStart_floor (num : V3 Int) (den : Nat) (hd : 0 < den) (os : Shape) :
+    (2 * (den : Int) * (placeStart num den os).x ≤ 2 * (num.x - den) - os.nx * den ∧
+      2 * (num.x - den) - os.nx * den < 2 * (den : Int) * ((placeStart num den os).x + 1)) ∧
+    (2 * (den : Int) * (placeStart num den os).y ≤ 2 * (num.y - den) - os.ny * den ∧
+      2 * (num.y - den) - os.ny * den < 2 * (den : Int) * ((placeStart num den os).y + 1)) ∧
+    (2 * (den : Int) * (placeStart num den os).z ≤ 2 * (num.z - den) - os.nz * den ∧
+      2 * (num.z - den) - os.nz * den < 2 * (den : Int) * ((placeStart num den os).z + 1)) := by
+  unfold placeStart startOf3
+  simp only [place_offset_documented, Int.one_mul]
+  exact ⟨startOf_spec _ den os.nx hd, startOf_spec _ den os.ny hd, startOf_spec _ den os.nz hd⟩
+
+/-- **Placement uses the particle's active orientation — any template shape** (odd, even, mixed parity, non-cubic).
+A particle with orientation `R` (orthogonal integer matrix, e.g. any cube rotation `zxz(phi,theta,psi)`), complete
+position `pos = num/den` and field value `col`; a template voxel at offset `v` from the template centre `⌊s/2⌋` that is
+above the threshold: the container voxel `start + ⌊s/2⌋ + R v` receives `col`, where `start = ⌊pos - 1 - s/2⌋`
+(`placeStart_floor`) — the template centre lands on `start + ⌊s/2⌋` and offsets are carried by the same `R v` by which
+`shift_positions` carries a reference offset into the tomogram. -/
+theorem place_active_any (C : Shape) (g : V3 Int → α) (os : Shape) (tmpl : V3 Int → Rat) (R : M3 Int) (hR : R.Orth)
+    (num : V3 Int) (den : Nat) (col : α) (v : V3 Int)
+    (hv : os.inBox (os.centre + v) = true)
+    (hon : isOn (tmpl (os.centre + v)) = true)
+    (hRv : os.inBox (os.centre + R.apply v) = true)
+    (hC : C.inBox (placeStart num den os + (os.centre + R.apply v)) = true) :
+    ∃ g', placeAll C g os [cubeStamp os tmpl R num den col] = some g' ∧
+      g' (placeStart num den os + (os.centre + R.apply v)) = col := by
+  obtain ⟨g', e, h⟩ := place_painter C os g [cubeStamp os tmpl R num den col]
+  refine ⟨g', e, ?_⟩
+  rw [h _ hC]
+  have hsub : (placeStart num den os + (os.centre + R.apply v)) - (cubeStamp os tmpl R num den col).start
+      = os.centre + R.apply v := v3_add_sub_cancel _ _
+  have hcov : covers os (cubeStamp os tmpl R num den col) (placeStart num den os + (os.centre + R.apply v)) = true := by
+    unfold covers
+    rw [hsub, hRv, Bool.true_and]
+    show isOn (rotateBy R _ tmpl _) = true
+    rw [rotate_index R hR _ tmpl v hv]; exact hon
+  simp only [List.reverse_cons, List.reverse_nil, List.nil_append, List.find?_cons, hcov]
+  rfl
+
+/-- **… even templates** (`2a × 2b × 2c`): the template centre lands on `⌊pos⌋ - 1`, so the container voxel at offset
+`R v` from `⌊pos⌋ - 1` receives `col` (instance of `place_active_any` through `placeStart_even`). -/
 theorem place_active (C : Shape) (g : V3 Int → α) (a b c : Nat) (tmpl : V3 Int → Rat) (R : M3 Int) (hR : R.Orth)
     (num : V3 Int) (den : Nat) (hd : 0 < den) (col : α) (v : V3 Int)
     (hv : (⟨2 * a, 2 * b, 2 * c⟩ : Shape).inBox ((⟨2 * a, 2 * b, 2 * c⟩ : Shape).centre + v) = true)
@@ -245,22 +520,12 @@ theorem place_active (C : Shape) (g : V3 Int → α) (a b c : Nat) (tmpl : V3 In
     (hC : C.inBox ((⟨num.x / (den : Int) - 1, num.y / (den : Int) - 1, num.z / (den : Int) - 1⟩ : V3 Int) + R.apply v) = true) :
     ∃ g', placeAll C g ⟨2 * a, 2 * b, 2 * c⟩ [cubeStamp ⟨2 * a, 2 * b, 2 * c⟩ tmpl R num den col] = some g' ∧
       g' ((⟨num.x / (den : Int) - 1, num.y / (den : Int) - 1, num.z / (den : Int) - 1⟩ : V3 Int) + R.apply v) = col := by
-  obtain ⟨g', e, h⟩ := place_painter C ⟨2 * a, 2 * b, 2 * c⟩ g [cubeStamp ⟨2 * a, 2 * b, 2 * c⟩ tmpl R num den col]
-  refine ⟨g', e, ?_⟩
-  rw [h _ hC]
-  have hsub : ((⟨num.x / (den : Int) - 1, num.y / (den : Int) - 1, num.z / (den : Int) - 1⟩ : V3 Int) + R.apply v)
-      - (cubeStamp (⟨2 * a, 2 * b, 2 * c⟩ : Shape) tmpl R num den col).start
-      = (⟨2 * a, 2 * b, 2 * c⟩ : Shape).centre + R.apply v := by
-    simp only [cubeStamp, placeStart_even num den hd]
-    ext <;> simp [Shape.centre, v3_add_x, v3_add_y, v3_add_z, v3_sub_x, v3_sub_y, v3_sub_z] <;> omega
-  have hcov : covers ⟨2 * a, 2 * b, 2 * c⟩ (cubeStamp ⟨2 * a, 2 * b, 2 * c⟩ tmpl R num den col)
-      ((⟨num.x / (den : Int) - 1, num.y / (den : Int) - 1, num.z / (den : Int) - 1⟩ : V3 Int) + R.apply v) = true := by
-    unfold covers
-    rw [hsub, hRv, Bool.true_and]
-    show isOn (rotateBy R _ tmpl _) = true
-    rw [rotate_index R hR _ tmpl v hv]; exact hon
-  simp only [List.reverse_cons, List.reverse_nil, List.nil_append, List.find?_cons, hcov]
-  rfl
+  have hpt : ((⟨num.x / (den : Int) - 1, num.y / (den : Int) - 1, num.z / (den : Int) - 1⟩ : V3 Int) + R.apply v)
+      = placeStart num den ⟨2 * a, 2 * b, 2 * c⟩ + ((⟨2 * a, 2 * b, 2 * c⟩ : Shape).centre + R.apply v) := by
+    rw [placeStart_even num den hd]
+    ext <;> simp [Shape.centre, v3_add_x, v3_add_y, v3_add_z] <;> omega
+  rw [hpt] at hC ⊢
+  exact place_active_any C g ⟨2 * a, 2 * b, 2 * c⟩ tmpl R hR num den col v hv hon hRv hC
 
 /-! ### symmetrisation -/
 section sym
@@ -311,6 +576,26 @@ theorem symExact_rotate_invariant (n : Nat) (hn : n * (4 / n) = 4) (s : Shape) (
   rw [rotateBy_zeroExt]
   simp only [hin, if_true]
   exact symExact_invariant n hn s f p
+
+/-- **Same total density — the executable n ∈ {1, 2, 4} model on a concrete box** (the instantiation of `symmetrize_total`
+for a box; `voxels s` is the finite set of all voxel indices of the box, `mem_voxels`).  `n = 4` needs a square x–y
+section; an even size needs the map to vanish on its plane `x = 0` (resp. `y = 0`), e.g. a map with zero faces — that plane
+has no mirror image about the centre `⌊N/2⌋`; odd sizes need nothing. -/
+theorem symExact_total (n : Nat) (hn : n * (4 / n) = 4) (hK : (n : K) ≠ 0) (s : Shape) (hsq : n = 4 → s.nx = s.ny)
+    (f : V3 Int → K)
+    (hface : ∀ p, s.inBox p = true → ((s.nx % 2 = 0 ∧ p.x = 0) ∨ (s.ny % 2 = 0 ∧ p.y = 0)) → f p = 0) :
+    ∑ p ∈ voxels s, symmetrizeExact (fun m : Nat => (m : K)) n s f p = ∑ p ∈ voxels s, f p :=
+  symExact_total_aux n hn hK s hsq f hface
+
+/-- … in the model's own `np.sum` (`sumBox`, the left fold over the voxels in C order) -/
+theorem symExact_total_sum (n : Nat) (hn : n * (4 / n) = 4) (hK : (n : K) ≠ 0) (s : Shape) (hsq : n = 4 → s.nx = s.ny)
+    (f : V3 Int → K)
+    (hface : ∀ p, s.inBox p = true → ((s.nx % 2 = 0 ∧ p.x = 0) ∨ (s.ny % 2 = 0 ∧ p.y = 0)) → f p = 0) :
+    sumBox s (symmetrizeExact (fun m : Nat => (m : K)) n s f) = sumBox s f := by
+  rw [sumBox_eq_sum, sumBox_eq_sum]; exact symExact_total n hn hK s hsq f hface
+
+/-- the finite voxel set is exactly the box -/
+theorem voxels_spec (s : Shape) (p : V3 Int) : p ∈ voxels s ↔ s.inBox p = true := mem_voxels s p
 end sym
 
 /-! ### driver plumbing: nested lists ↔ voxel functions -/
@@ -354,6 +639,23 @@ example : (∀ x : Fin 3, (fun x => x + 1)^[3] x = x) ∧ ((3 : Nat) : Rat) ≠ 
 /-- n ∈ {1, 2, 4} meet `n * (4 / n) = 4`; the 4-fold voxel map on a 5×5×3 box moves voxel (4,2,1) to (2,0,1) -/
 example : 1 * (4 / 1) = 4 ∧ 2 * (4 / 2) = 4 ∧ 4 * (4 / 4) = 4 ∧
     srcCoord (rzQuarter (4 / 4)).transpose (⟨5, 5, 3⟩ : Shape).centre ⟨4, 2, 1⟩ = (⟨2, 0, 1⟩ : V3 Int) := by decide
+/-- `symExact_total`: a 4-fold symmetrisation of a 5×5×3 map (odd: no face condition) over ℚ, evaluated -/
+example : ((4 : Nat) : Rat) ≠ 0 ∧ (4 = 4 → (⟨5, 5, 3⟩ : Shape).nx = (⟨5, 5, 3⟩ : Shape).ny) ∧
+    (∀ p : V3 Int, (⟨5, 5, 3⟩ : Shape).inBox p = true →
+      (((⟨5, 5, 3⟩ : Shape).nx % 2 = 0 ∧ p.x = 0) ∨ ((⟨5, 5, 3⟩ : Shape).ny % 2 = 0 ∧ p.y = 0)) → (fun q : V3 Int => ((q.x + 2 * q.y : Int) : Rat)) p = 0) := by
+  refine ⟨by norm_num, fun _ => rfl, fun p _ h => ?_⟩
+  rcases h with ⟨h, _⟩ | ⟨h, _⟩ <;> simp at h
+/-- `place_active_any`: an odd 5×3×7 template, voxel at offset (1,0,-2) on, pose `zxz(0°, 0°, 90°)`, position (6.5, 7, 8.25), container 14³ -/
+example : (⟨5, 3, 7⟩ : Shape).inBox ((⟨5, 3, 7⟩ : Shape).centre + ⟨1, 0, -2⟩) = true ∧
+    (⟨5, 3, 7⟩ : Shape).inBox ((⟨5, 3, 7⟩ : Shape).centre + (cubeZxz 0 0 1).apply ⟨1, 0, -2⟩) = true ∧
+    placeStart ⟨26, 28, 33⟩ 4 ⟨5, 3, 7⟩ = ⟨3, 4, 3⟩ ∧
+    (⟨14, 14, 14⟩ : Shape).inBox (placeStart ⟨26, 28, 33⟩ 4 ⟨5, 3, 7⟩ + ((⟨5, 3, 7⟩ : Shape).centre + (cubeZxz 0 0 1).apply ⟨1, 0, -2⟩)) = true := by decide
+/-- `crop_spec_clipped` / `extract_enforce_spec` / `pad_spec` evaluated: a window hanging over the upper x face; padding 5 → 8 -/
+example : (cropF ⟨6, 6, 6⟩ (fun p : V3 Int => 100 * p.x + 10 * p.y + p.z) ⟨4, 1, 2⟩ ⟨4, 2, 2⟩).1 = ⟨2, 2, 2⟩ ∧
+    (cropF ⟨6, 6, 6⟩ (fun p : V3 Int => 100 * p.x + 10 * p.y + p.z) ⟨4, 1, 2⟩ ⟨4, 2, 2⟩).2 ⟨1, 1, 0⟩ = 522 ∧
+    extractEnforceF ⟨6, 6, 6⟩ (fun p : V3 Int => 100 * p.x + 10 * p.y + p.z) ⟨4, 1, 2⟩ ⟨4, 2, 2⟩ (-1) ⟨5, 2, 3⟩ = 523 ∧
+    extractEnforceF ⟨6, 6, 6⟩ (fun p : V3 Int => 100 * p.x + 10 * p.y + p.z) ⟨4, 1, 2⟩ ⟨4, 2, 2⟩ (-1) ⟨3, 2, 3⟩ = -1 ∧
+    padStart 8 5 = 2 ∧ padStart 8 6 = 1 ∧ padStart 5 5 = 0 := by decide
 end examples
 
 /-! ### regression witnesses (defect D14): the pre-repair angle `360 % (k·step)` is not the k-th multiple of the step -/
